@@ -2,6 +2,7 @@
 pub mod calls;
 pub mod gen;
 pub mod geom;
+pub mod loci;
 pub mod model;
 pub mod mon;
 pub mod orc;
